@@ -253,6 +253,26 @@ def _splice(caller, b, callee, args, dest, cont, line, ret_wrap=None):
     caller.setdefault('spliced', []).append({'helper': callee['id'], 'block': b, 'entry': boff, 'args': copy.deepcopy(args), 'dest': copy.deepcopy(dest)})
     if ret_wrap is None and cont is not None:
         _thread_returns(caller, callee, loff, boff, dest, cont, line)
+        # when every return was threaded past the continuation, the continuation (and the return blocks of the copy that
+        # led to it) are dead: cut off whatever is no longer reachable from the entry, or it shows up as a second
+        # entry of whatever loop it sat in
+        def _succ(t_):
+            k_ = t_['k']
+            out = [t_.get('t')] if k_ in ('goto', 'call', 'drop', 'assert') else ([tb for _, tb in t_['v']] + [t_.get('o')] if k_ == 'switch' else [])
+            if t_.get('u') is not None:
+                out.append(t_['u'])
+            return [y for y in out if y is not None]
+        seen, work = set(), [0]
+        while work:
+            x = work.pop()
+            if x in seen or x >= len(caller['bbs']):
+                continue
+            seen.add(x)
+            work.extend(_succ(caller['bbs'][x]['t']))
+        for x in range(boff if False else 0, len(caller['bbs'])):
+            if x not in seen and caller['bbs'][x]['t']['k'] != 'unreach':
+                caller['bbs'][x]['t'] = {'k': 'unreach'}
+                caller['bbs'][x]['s'] = []
 
 
 _VARIANT = {'None': 0, 'Some': 1, 'Ok': 0, 'Err': 1}
